@@ -406,6 +406,7 @@ def _spec_form(ex, name, node, st):
         o = ex.old_env
         st2 = st.fork()
         st2.heap = dict(o.heap)
+        st2.epoch = o.epoch
         # parameters keep their (immutable) bindings; only the heap is rewound
         return ex.ev(node.args[0], st2)
     if name == "implies":
